@@ -691,6 +691,13 @@ func c02ManyFiles(c *core.Ctx, owner gen.KeyPair, acc, rej *int64) {
 					os.WriteFile(filepath.Join(dir, fmt.Sprintf("%s.!!!!%04d.link", sn, k)), []byte("not a link"), 0644)
 				}
 			}
+			// ... and entries named like links that cannot even be examined: a symbolic link to itself, one
+			// whose path leads through a regular file, one into a chain of links, a dangling one
+			os.Symlink("s.!!!loop0.link", filepath.Join(dir, "s.!!!loop0.link"))
+			os.Symlink(filepath.Join(dir, "s.!!!!0000.link", "below-a-file"), filepath.Join(dir, "s.!!!thru0.link"))
+			os.Symlink("s.!!!loop2.link", filepath.Join(dir, "s.!!!loop1.link"))
+			os.Symlink("s.!!!loop1.link", filepath.Join(dir, "s.!!!loop2.link"))
+			os.Symlink("nowhere", filepath.Join(dir, "fetch.!!!gone0.link"))
 			gen.WriteLink(dir, gen.NewLink("fetch", nil, gen.Artifacts(map[string]string{"in": "i"})), A.Priv, dsse)
 			link := gen.NewLink("s", gen.Artifacts(map[string]string{"in": "i"}), gen.Artifacts(map[string]string{"out": "o"}))
 			gen.WriteLink(dir, link, A.Priv, dsse)
@@ -803,7 +810,7 @@ func init() {
 	core.Register(&core.Property{
 		ID:    "C02",
 		Level: "exploration",
-		Rule: "layout with steps t (earlier), s (under test), u (later); step s with threshold 1..3 and authorization by {2 listed keys, 1 certificate constraint + layout root/intermediate CA, both}; link-file populations for s = all multisets of size<=2 (quick) / <=3 (thorough, + 2000 random ones of size 4-8) over a catalogue of 28 link kinds (honest key A/B, honest certificate C / D via intermediate, tampered, unsigned, unauthorized key, key of an earlier / a later step, copy under another name, copy with forged key-id entry without / with the honest certificate, relabelled copy (forged id with the honest signature value and certificate), junk signatures before/after, expired / foreign-root / constraint-failing certificate, certificate repeating one of two required organizations, tampered copy filed under nine characters of the honest functionary's key id, copy under the upper-case spelling of the honest functionary's key id, honest key-authorized link whose signature also carries an unrelated certificate, honest link filed as a symlink, garbage, truncated JSON, link of another step renamed) x 2 wrappers; the earlier step t also admits certificate functionary C (its verdict must not leak into s); every population of >=2 files is verified 8 times (map order), half of the verifications with the intermediate of a foreign chain passed as caller-supplied intermediate, half with a (non-matching) parameter dictionary, half through InTotoVerifyWithDirectory; the same populations against layouts that name no CA at all (no certificate counts, although the verifying host's own trust store - SSL_CERT_FILE - trusts the functionaries' CA); links that never count report other artifacts than the honest ones; VerifyLinkSignatureThesholds is also called directly and its map inspected; a sequence of two layouts that define one key id with different key material; finally single-step chains whose step name and link directory name contain characters of file-name patterns ([ ] * ? \\ { }), blanks and non-ASCII letters (12 step names x 7 directory names, with and without the honest link). Oracle: expected number of distinct counting functionaries known by construction.  A link directory with 300 stray files named like links, verified while the process may only have 128 files open: two honest links meet threshold 2, one does not." +
+		Rule: "layout with steps t (earlier), s (under test), u (later); step s with threshold 1..3 and authorization by {2 listed keys, 1 certificate constraint + layout root/intermediate CA, both}; link-file populations for s = all multisets of size<=2 (quick) / <=3 (thorough, + 2000 random ones of size 4-8) over a catalogue of 28 link kinds (honest key A/B, honest certificate C / D via intermediate, tampered, unsigned, unauthorized key, key of an earlier / a later step, copy under another name, copy with forged key-id entry without / with the honest certificate, relabelled copy (forged id with the honest signature value and certificate), junk signatures before/after, expired / foreign-root / constraint-failing certificate, certificate repeating one of two required organizations, tampered copy filed under nine characters of the honest functionary's key id, copy under the upper-case spelling of the honest functionary's key id, honest key-authorized link whose signature also carries an unrelated certificate, honest link filed as a symlink, garbage, truncated JSON, link of another step renamed) x 2 wrappers; the earlier step t also admits certificate functionary C (its verdict must not leak into s); every population of >=2 files is verified 8 times (map order), half of the verifications with the intermediate of a foreign chain passed as caller-supplied intermediate, half with a (non-matching) parameter dictionary, half through InTotoVerifyWithDirectory; the same populations against layouts that name no CA at all (no certificate counts, although the verifying host's own trust store - SSL_CERT_FILE - trusts the functionaries' CA); links that never count report other artifacts than the honest ones; VerifyLinkSignatureThesholds is also called directly and its map inspected; a sequence of two layouts that define one key id with different key material; finally single-step chains whose step name and link directory name contain characters of file-name patterns ([ ] * ? \\ { }), blanks and non-ASCII letters (12 step names x 7 directory names, with and without the honest link). Oracle: expected number of distinct counting functionaries known by construction.  A link directory with 300 stray files named like links plus symbolic links that lead to themselves, through a regular file, into a cycle and nowhere, verified while the process may only have 128 files open: two honest links meet threshold 2, one does not." +
 			"non-trivial = at least one file for the step; distinct = (kind multiset, threshold, authorization, wrapper)",
 		Assumptions: []string{"a junk signature entry that carries the honest signer's own key id before the honest entry is not judged", "a link that an authorized functionary signed for ANOTHER step, renamed to this step's file name, is not judged (observed: it is counted; the statement only speaks about who signed)", "all links of a case report identical artifacts (agreement is C05's business)"},
 		Workers:     func(string) int { return 16 },
